@@ -27,19 +27,28 @@ structure MirrorCfg (cfg : Config) (mc : MatcherCfg) : Prop where
   metrics : ∀ m ∈ cfg.evalMetrics, symMetric m
   decision : ∀ d, cfg.decision = some d → symMetric d.1 ∧ ∃ q, d.2 = .exact q
 
-/-- the candidates of the mirrored pair are the mirrored candidates (same scores), up to order -/
+/-- the candidates of the mirrored pair are the mirrored candidates (same scores), up to order.
+    The label bound `hb` is necessary: candidate discovery encodes a pair as `pred * (max_ref + 1) + ref`
+    in 64-bit arithmetic, and which of the two maps supplies `max_ref` changes with the direction, so
+    beyond the bound the two directions can wrap differently. Counterexample without `hb`:
+    `pred = [2^63]`, `ref = [2]`, `s = [1]`, IoU — `scoredCands .IOU ⟨s, ref⟩ ⟨s, pred⟩` has the single
+    candidate `(ref, pred) = (1, 1)`, whereas `(scoredCands .IOU ⟨s, pred⟩ ⟨s, ref⟩).map swapCand` has
+    `(ref, pred) = (3074457345618258603, 1)`; with threshold `.exact 0` the two label maps are
+    `[(3074457345618258603, 1)]` and `[(1, 1)]`, so `runMatcher_swap` fails as well (the single
+    candidate makes `Determined` hold trivially). -/
 theorem scoredCands_swap (m : Metric) (hm : symMetric m) (s : List Nat) (pred ref : Flat)
-    (hlen : pred.length = ref.length) :
+    (hlen : pred.length = ref.length) (hb : ∀ x ∈ pred ++ ref, x < 2 ^ 32 - 1) :
     (scoredCands m ⟨s, ref⟩ ⟨s, pred⟩).Perm ((scoredCands m ⟨s, pred⟩ ⟨s, ref⟩).map swapCand) := by
-  sorry
+  exact Mirror.scoredCands_swap_bdd m hm s pred ref hlen hb
 
 /-- the matcher's label map of the mirrored pair is the mirrored label map (as a set of pairs) -/
 theorem runMatcher_swap (mc : MatcherCfg) (hk : mc.kind = .naive false) (hm : symMetric mc.metric)
     (ht : ∃ q, mc.thr = .exact q) (s : List Nat) (pred ref : Flat) (hlen : pred.length = ref.length)
+    (hb : ∀ x ∈ pred ++ ref, x < 2 ^ 32 - 1)
     (hdet : C03.Determined Score.le mc.metric.decreasing mc.thr (scoredCands mc.metric ⟨s, pred⟩ ⟨s, ref⟩))
     (lm lm' : LMap) (h : runMatcher mc ⟨s, pred⟩ ⟨s, ref⟩ = .ok lm) (h' : runMatcher mc ⟨s, ref⟩ ⟨s, pred⟩ = .ok lm') :
     ∀ p r, (p, r) ∈ lm ↔ (r, p) ∈ lm' := by
-  sorry
+  exact Mirror.runMatcher_swap_bdd mc hk hm ht s pred ref hlen hb hdet lm lm' h h'
 
 /-- with a one-to-one matcher the relabelled prediction has as many instances as the prediction -/
 theorem nPred_one_to_one (cfg : Config) (mc : MatcherCfg) (hin : cfg.input = .UNMATCHED) (hm : cfg.matcher = some mc)
@@ -48,7 +57,7 @@ theorem nPred_one_to_one (cfg : Config) (mc : MatcherCfg) (hin : cfg.input = .UN
     (hp : labelsOf pred ≠ []) (hr : labelsOf ref ≠ [])
     (out : PipeOut) (h : pipeline cfg bits ⟨s, pred⟩ ⟨s, ref⟩ = .ok out) :
     out.nPred = (labelsOf pred).length ∧ out.nRef = (labelsOf ref).length := by
-  sorry
+  exact Mirror.nPred_core cfg mc hin hm hk bits s pred ref hlen hb hp hr out h
 
 /-- end to end -/
 theorem pipeline_mirror (cfg : Config) (mc : MatcherCfg) (hc : MirrorCfg cfg mc) (bits : Nat) (s : List Nat)
@@ -59,7 +68,8 @@ theorem pipeline_mirror (cfg : Config) (mc : MatcherCfg) (hc : MirrorCfg cfg mc)
     (h' : pipeline cfg bits ⟨s, ref⟩ ⟨s, pred⟩ = .ok out') :
     out'.tp = out.tp ∧ out'.nRef = out.nPred ∧ out'.nPred = out.nRef ∧
     ∀ m ∈ cfg.evalMetrics, ∀ vals vals', (m, vals) ∈ out.lists → (m, vals') ∈ out'.lists → vals.Perm vals' := by
-  sorry
+  exact Mirror.pipeline_mirror_core cfg mc hc.input hc.matcher hc.kind hc.mmetric hc.thrExact hc.metrics
+    bits s pred ref hlen hb hp hr hdet out out' h h'
 
 /-- non-vacuity: a covered configuration -/
 def exCfg : Config where
